@@ -262,6 +262,67 @@ mod verif_cex_history {
         res
     }
 
+    // a three-level bucket with nested buckets sprinkled in; ONE transaction empties (almost) the whole subtree of an inner
+    // branch, writes into a nested bucket that survives there and updates a key to the right of it: exercises merges of
+    // inner branch nodes into either sibling together with the commit-time rewrite of nested-bucket entries
+    fn run_deep_shape(lo: u32, hi: u32) -> Result<(), String> {
+        let p = std::env::temp_dir().join(format!("jammdb-cex-deep-{}-{}-{}.db", lo, hi, std::process::id()));
+        let _ = std::fs::remove_file(&p);
+        let res = (|| {
+            let what = format!("shape: bucket `big` with 1500 keys and a nested bucket after every 25th key (page size 1024); ONE transaction deletes the keys [{}..{}) but keeps the nested buckets, writes into the nested bucket in the middle and updates a key to the right", lo, hi);
+            let db = OpenOptions::new().pagesize(1024).open(&p).map_err(|e| format!("open: {:?}", e))?;
+            let key = |i: u32| format!("key-{:08}", i).into_bytes();
+            let sub = |i: u32| format!("key-{:08}-sub", i).into_bytes();
+            let mut m = MB::default();
+            {
+                let tx = db.tx(true).unwrap();
+                let big = tx.create_bucket("big").unwrap();
+                let mut bm = MB::default();
+                for i in 0..1500u32 {
+                    let v = vec![b'v'; 40];
+                    big.put(key(i), v.clone()).unwrap(); bm.items.insert(key(i), M::Kv(v)); bm.next_int += 1;
+                    if i % 25 == 12 {
+                        let nb = big.create_bucket(sub(i)).unwrap(); nb.put("x", "y").unwrap();
+                        let mut c = MB::default(); c.items.insert(b"x".to_vec(), M::Kv(b"y".to_vec())); c.next_int = 1;
+                        bm.items.insert(sub(i), M::B(c)); bm.next_int += 1;
+                    }
+                }
+                m.items.insert(b"big".to_vec(), M::B(bm));
+                tx.commit().map_err(|e| format!("{}: first commit fails: {:?}", what, e))?;
+            }
+            {
+                let tx = db.tx(true).unwrap();
+                {
+                    let big = tx.get_bucket("big").unwrap();
+                    let bm = model_at(&mut m, &[b"big".to_vec()]);
+                    for i in lo..hi { big.delete(key(i)).map_err(|e| format!("{}: delete fails: {}", what, kind(&e)))?; bm.items.remove(&key(i)); }
+                    let mid = ((lo + hi) / 2) / 25 * 25 + 12;
+                    let nb = big.get_bucket(sub(mid)).map_err(|e| format!("{}: nested bucket missing: {}", what, kind(&e)))?;
+                    nb.put("x2", "y2").unwrap();
+                    if let Some(M::B(c)) = bm.items.get_mut(&sub(mid)) { c.items.insert(b"x2".to_vec(), M::Kv(b"y2".to_vec())); c.next_int += 1; }
+                    if hi + 10 < 1500 { let v = vec![b'U'; 40]; big.put(key(hi + 10), v.clone()).unwrap(); bm.items.insert(key(hi + 10), M::Kv(v)); }
+                }
+                tx.commit().map_err(|e| format!("{}: commit fails: {:?}", what, e))?;
+            }
+            db.check().map_err(|e| format!("{}: DB::check() fails: {:?}", what, e))?;
+            read_all(&db, &m, &what)?;
+            Ok(())
+        })();
+        let _ = std::fs::remove_file(&p);
+        res
+    }
+
+    #[test]
+    fn cex_history_deep_shapes() {
+        for (lo, hi) in [(0u32, 280u32), (150, 450), (300, 600), (450, 750), (600, 900), (900, 1200), (1200, 1500), (100, 1400)] {
+            match std::panic::catch_unwind(|| run_deep_shape(lo, hi)) {
+                Ok(Ok(())) => {}
+                Ok(Err(e)) => { println!("CEX history (C01/C05): {}", e); panic!("deep shape mismatch"); }
+                Err(_) => { println!("CEX history (C01 nothing panics): deep shape [{}..{}) panicked", lo, hi); panic!("deep shape panic"); }
+            }
+        }
+    }
+
     #[test]
     fn cex_history_shapes() {
         for (n, a, b, top) in [(40u32, 0u32, 20u32, false), (40, 10, 30, false), (40, 20, 40, false), (40, 0, 40, false), (60, 0, 45, true), (60, 15, 60, true), (12, 4, 5, true)] {
